@@ -88,7 +88,7 @@ PROPS = {
              partial="global rejection of every proper crossing is decided by exhaustive enumeration; the theorems cover the local crossing test"),
     "C07": P(["disp2d"], tb=DISP_TB, assumptions=DISP_AS,
              partial="'within the sum of the reported estimates' is decided by the exact-antiderivative oracle on polynomial f,c,g; theorems give the chain/additivity and per-piece quadrature identity"),
-    "C08": P(["disp3d"], tb=DISP_TB + TRI_TB, assumptions=DISP_AS,
+    "C08": P(["disp3d", "quad2d"], tb=DISP_TB + TRI_TB + QUAD_TB, assumptions=DISP_AS,
              partial="conditional on the tiling (C03); total checked against a closed form for linear/quadratic f and linear c on sets with holes"),
     "C09": P(["quad2d"], tb=QUAD_TB, assumptions=QUAD_AS,
              partial="accuracy of the adaptive 2-D loop is explored against a nested Gauss-Legendre reference; theorems cover symmetries, degenerate triangles and the estimate"),
